@@ -14,6 +14,12 @@ CLAIMED = {
  "C11": dict(text="Lean theorems over any linearly ordered commutative ring: violation = 0 iff relation, > 0 otherwise, monotone away from the feasible side, total = sum |.|, feasible iff all relations hold, feasible beats infeasible; the expression grammar (regex + operator table) modelled and proved to accept every operator/whitespace/token combination and reject malformed ones. Float wire bit-exact + exact wire on dyadic cases, exhaustive over the grammar",
              note="Python float() literal grammar and float rounding of |x-y|+delta are parameters (exercised, not proved); sum() is CPython's",
              tech="Lean 4 proof (case analysis per operator; list lemmas for the regex matcher) + bit-exact correspondence", ref="§5 C11"),
+ "C05": dict(text="Lean theorems over any linearly ordered field with floor: same_box / compare characterised by box-index vectors (floor(value/eps) per objective, last eps reused) and squared corner distance; never contradicts Pareto dominance; for every insertion history: one per box, incomparable boxes, coverage of everything offered, within-one-epsilon, improvement counter step law. Float instance bit-exact on arbitrary doubles + exact instance on dyadic lattices",
+             note="float rounding of o/eps and of the corner distances is outside the theorems (the same-box rounding tie that contradicts Pareto dominance is a recorded known finding)",
+             tech="Lean 4 proof (induction over objectives and over the history) + bit-exact/exact correspondence", ref="§5 C05"),
+ "C04": dict(text="Lean theorems for any antisymmetric transitive comparator: rank 0 iff non-dominated, rank r+1 iff all dominators have rank <= r and one has rank r, termination of peeling, contiguous ranks; truncation by any total transitive key returns exactly min(k,n) distinct members and never keeps worse-than-discarded (rank, then crowding); split/prune specifications. Correspondence: ranks exact, crowding distance Float bit-exact, ids of every cut for all k",
+             note="numeric value of the crowding distance is tied by bit-exact correspondence and an exact-fraction oracle, not by a theorem (partial for that clause)",
+             tech="Lean 4 proof (induction over peeling rounds / merge sort lemmas) + correspondence", ref="§5 C04"),
 }
 PENDING = {}
 def main():
